@@ -9,7 +9,7 @@
    in progress; [trace_ok] = the specification predicate used as judge on the implementation. *)
 From Coq Require Import List ZArith NArith Bool.
 Import ListNotations.
-From SygmaV Require Import Model.C05 Proofs.C05 Gen.C05_Wiring.
+From SygmaV Require Import Model.C05 Proofs.C05 Proofs.C05_Start Gen.C05_Wiring.
 Local Open Scope Z_scope.
 
 (* For every wiring that reads the stored cursor and passes it on, every configuration
@@ -165,3 +165,65 @@ Print Assumptions C05_substrate_wiring_ok.
 Theorem C05_btc_wiring_ok : wiring_ok wiring_btc = true.
 Proof. vm_compute. reflexivity. Qed.
 Print Assumptions C05_btc_wiring_ok.
+
+(* ---- the arguments of blockstore.GetStartBlock(domainID, startBlock, latest, fresh) -------------
+   app.Run gives each parameter an expression over the chain's configuration ([start_call]; the
+   three calls of app.go are GENERATED into Gen/C05_Wiring.v start_evm / start_substrate / start_btc,
+   through helper functions and local names if need be), so GetStartBlock sees [sc_cfg sc c], and
+   the history of the relayer as wired is [run w (sc_cfg sc c) stored0 evs] - that is what the
+   correspondence run compares the real stack with (the runner computes the flags by the extracted
+   expressions and hands them to the real GetStartBlock), judged by [trace_ok c]: the specification
+   speaks about the configuration the operator wrote. *)
+
+(* A call that tells GetStartBlock the truth - the configured start block, each flag an expression
+   that equals that flag under all four settings - changes nothing ... *)
+Theorem C05_start_call_canonical : forall sc c, start_call_ok sc = true -> sc_cfg sc c = c.
+Proof. exact start_call_canonical. Qed.
+Print Assumptions C05_start_call_canonical.
+
+(* ... so the relayer as wired satisfies the specification, for every such call, every wiring that
+   reads the stored cursor and passes it on, every configuration and every event list. *)
+Theorem C05_wired_trace_ok : forall w sc c stored0 evs,
+  wiring_ok w = true -> start_call_ok sc = true -> wf_cfg c = true -> latest c = false ->
+  trace_ok c stored0 (run w (sc_cfg sc c) stored0 evs) = true.
+Proof. exact wired_trace_ok. Qed.
+Print Assumptions C05_wired_trace_ok.
+
+Theorem C05_wired_trace_ok_all : forall w sc c stored0 evs,
+  start_call_ok sc = true -> wf_cfg c = true -> (wiring_ok w = true \/ latest c = true) ->
+  trace_ok c stored0 (run w (sc_cfg sc c) stored0 evs) = true.
+Proof. exact wired_trace_ok_all. Qed.
+Print Assumptions C05_wired_trace_ok_all.
+
+(* The two flags exchanged - GetStartBlock(id, config.StartBlock, fresh, latest) - under an otherwise
+   sound wiring: a domain started with fresh = true is taken for `latest`, the listener starts at the
+   head (120) and the blocks from the configured start block (100) on are never handled. *)
+Theorem C05_swapped_start_flags_refuted :
+  exists c stored0 evs, wiring_ok good_btc_wiring = true /\ wf_cfg c = true /\ latest c = false /\
+    trace_ok c stored0 (run good_btc_wiring (sc_cfg swapped_start c) stored0 evs) = false.
+Proof. exact swapped_start_refuted. Qed.
+Print Assumptions C05_swapped_start_flags_refuted.
+
+(* Non-vacuity: the call app.go has always made satisfies the hypothesis; exchanged flags, a constant
+   flag, a literal start block do not. *)
+Example C05_start_call_nonvacuous :
+  start_call_ok canonical_start = true /\ start_call_ok swapped_start = false /\
+  start_call_ok {| sc_block := BConfigured; sc_latest := FConst false; sc_fresh := FFresh |} = false /\
+  start_call_ok {| sc_block := BLit 0; sc_latest := FLatest; sc_fresh := FFresh |} = false /\
+  start_call_ok {| sc_block := BConfigured; sc_latest := FAnd FLatest (FConst true); sc_fresh := FNot (FNot FFresh) |} = true.
+Proof. vm_compute. repeat split. Qed.
+
+(* The calls extracted from app/app.go (Gen/C05_Wiring.v, regenerated on every check) satisfy the
+   hypothesis, for each chain kind - by computation, so a change of the arguments in app.go (or in a
+   helper the call goes through) breaks THESE. *)
+Theorem C05_evm_start_call_ok : start_call_ok start_evm = true.
+Proof. vm_compute. reflexivity. Qed.
+Print Assumptions C05_evm_start_call_ok.
+
+Theorem C05_substrate_start_call_ok : start_call_ok start_substrate = true.
+Proof. vm_compute. reflexivity. Qed.
+Print Assumptions C05_substrate_start_call_ok.
+
+Theorem C05_btc_start_call_ok : start_call_ok start_btc = true.
+Proof. vm_compute. reflexivity. Qed.
+Print Assumptions C05_btc_start_call_ok.
